@@ -116,7 +116,8 @@ def run(ctx: Ctx):
             whys = f"std = sqrt({p.show(2)}); expected sqrt(M2 / (count - 1))"
     ctx.ob("C20.b", "RewardScaler.__call__:std", oks, fc.loc, whys, construct="RewardScaler.__call__:std")
     fac = L.get("score_scaling_factor")
-    okf = isinstance(fac, vg.S) and nf.poly(fac) - nf.poly(std) != nf.Poly() and len((nf.poly(fac) - nf.poly(std)).monos()) == 1 and "eps" in vg.show(fac, 5)
+    dfac = (nf.poly(fac) - nf.poly(std)).monos() if isinstance(fac, vg.S) else []
+    okf = len(dfac) == 1 and dfac[0][0] == 1 and len(dfac[0][1]) == 1 and "eps" in vg.show(dfac[0][1][0][0], 5)
     # returned alternatives
     sc = fr2.ret
     alts = []
@@ -125,21 +126,42 @@ def run(ctx: Ctx):
             walk_alts(v.args[1]); walk_alts(v.args[2])
         else:
             alts.append(v)
-    for c, v in fr2.returns:
-        walk_alts(v)
+    def galts(v, g=()):
+        if isinstance(v, vg.S) and v.op in ("phi", "ifexp"):
+            yield from galts(v.args[1], g + ((v.args[0], True),))
+            yield from galts(v.args[2], g + ((v.args[0], False),))
+        else:
+            yield g, v
+
+    def mode_of(g):
+        """the scaling mode selected by the guards: `self.scale == 'm'` taken / `!= 'm'` not taken"""
+        excluded.clear()
+        for t, b in g:
+            for n in vg.walk(t):
+                if n.op in ("==", "!=") and any(isinstance(a, vg.S) and a.op == "selfattr" and a.args[0] == "scale" for a in n.args):
+                    cs = [a.args[0] for a in n.args if isinstance(a, vg.S) and a.op == "const" and isinstance(a.args[0], str)]
+                    if cs and (b if n.op == "==" else not b):
+                        return cs[0]
+                    if cs:
+                        excluded.add(cs[0])
+        return None
+
     x2 = vg.mk("param", "scores")
     norm_ok = scale_ok = False
-    for v in alts:
-        if not isinstance(v, vg.S):
-            continue
-        p = nf.poly(v)
-        rf = vg.mk("recip", nf.norm(fac)) if isinstance(fac, vg.S) else None
-        if rf is None:
-            continue
-        if p == (nf.poly(x2) - nf.poly(A("mean"))) * nf.Poly.atom(rf):
-            norm_ok = True
-        if p == nf.poly(x2) * nf.Poly.atom(rf):
-            scale_ok = True
+    excluded = set()
+    for c, v0 in fr2.returns:
+        for g, v in galts(v0):
+            if not isinstance(v, vg.S):
+                continue
+            p = nf.poly(v)
+            rf = vg.mk("recip", nf.norm(fac)) if isinstance(fac, vg.S) else None
+            if rf is None:
+                continue
+            m_ = mode_of(g)
+            if m_ == "norm" and p == (nf.poly(x2) - nf.poly(A("mean"))) * nf.Poly.atom(rf):
+                norm_ok = True
+            if (m_ == "scale" or (m_ is None and "norm" in excluded)) and p == nf.poly(x2) * nf.Poly.atom(rf):
+                scale_ok = True
     ctx.ob("C20.b", "RewardScaler.__call__:eps", bool(okf), fc.loc, "scaling factor = std + eps", construct="RewardScaler.__call__:eps")
     ctx.ob("C20.b", "RewardScaler.__call__:norm", norm_ok, fc.loc, "'norm' returns (scores - mean) / (std + eps)", construct="RewardScaler.__call__:norm")
     ctx.ob("C20.b", "RewardScaler.__call__:scale", scale_ok, fc.loc, "'scale' returns scores / (std + eps)", construct="RewardScaler.__call__:scale")
